@@ -42,6 +42,10 @@ CLAIMED = {
           "Generated-input search: grammar validity, tag balance, style runs, no tags when formatting is disabled, line/align settings, no failure on sub-millisecond intervals.",
           "Trusted: vt/cueparse.py, vt/ref_isd.py. Known finding S-7 (style reset inside a styled parent) reported as KNOWN-FINDING. SubRip text containing markup characters: only 'does not fail'.",
           "DESIGN.md C07"),
+  "C05": ("Hypothesis documents x writer time-format configurations: write, re-read, compare snapshots / parameters / written times; reader log captured",
+          "Generated-input search over round trips: writer must not fail, output well-formed, re-read logs nothing above INFO, parameters equal, every element written, snapshots equal at the reference's probe times (6 significant digits), written times exact when representable and within one unit and order-preserving otherwise. Special-value overrides are built on purpose.",
+          "Trusted: snapshot equality is judged through ttconv's own ISD on both documents (the ISD is checked independently by C01/C03/C13). Element xml:id and numeric values outside [1e-4,1e5] are outside the comparison.",
+          "DESIGN.md C05"),
 }
 NOT_APPLICABLE = {}
 
